@@ -64,7 +64,9 @@ theorem flush_open (g : Cfg) (s : S) (ks : List KAns) (hk : ∀ k ∈ ks, k ≠ 
   split
   · exact hc
   split
-  · exact hc
+  · have hD := D_cResetRead g s
+    simp only [D, Prod.mk.injEq] at hD
+    rw [hD.1]; exact hc
   · exact flushLoop_open g _ s ks hk hc
 
 /-- a quiet connection: open, registered, no connect in progress, the poller is not inside an event -/
@@ -121,6 +123,57 @@ theorem evEnd_quiet (g : Cfg) (u : S) (hh : u.hung = false) (hcv : u.connEv = fa
   · rw [if_neg hre, if_neg (by simp [hee])]
     have : u.rearm = false := by simpa using hre
     exact ⟨rfl, by simp [V, this, hee], rfl, rfl⟩
+
+/-- the poller's tail leaves a quiet connection behind: from a registered state whose async connect (if any) has
+    had its event, after `evEnd` (= `evConnEnd`, `evRearm`, `evErrClose`) the connection is closed or `Quiet` -/
+theorem quiet_after_tail (g : Cfg) (s : S) (hh : s.hung = false) (hr : s.reg = true) (he : s.early = false)
+    (hcn : s.connecting = true → s.connEv = true) (ho : (evEnd g s).closed = false) : Quiet (evEnd g s) := by
+  unfold evEnd at ho ⊢
+  rw [if_neg (by simp [hh])] at ho ⊢
+  simp only at ho ⊢
+  -- the connected tail
+  have h1 : ∃ t1 : S, (if s.connEv = true then cResetRead g { s with connecting := false, connEv := false } else s) = t1 ∧
+      t1.reg = true ∧ t1.early = false ∧ t1.connecting = false ∧ t1.connEv = false := by
+    refine ⟨_, rfl, ?_⟩
+    by_cases hv : s.connEv = true
+    · rw [if_pos hv]
+      have hw := W_cResetRead g { s with connecting := false, connEv := false }
+      simp only [W, Prod.mk.injEq] at hw
+      obtain ⟨_, _, w3, _, w5, _, w7, w8⟩ := hw
+      exact ⟨by rw [w3]; exact hr, by rw [w5]; exact he, by rw [w7], by rw [w8]⟩
+    · rw [if_neg hv]
+      have hv' : s.connEv = false := by simpa using hv
+      have hc' : s.connecting = false := by
+        cases hc : s.connecting
+        · rfl
+        · rw [hcn hc] at hv'; exact absurd hv' (by simp)
+      exact ⟨hr, he, hc', hv'⟩
+  obtain ⟨t1, e1, r1, y1, c1, v1⟩ := h1
+  rw [e1] at ho ⊢
+  -- ResetPollerEvent
+  have h2 : ∃ t2 : S, (if t1.rearm = true then resetPollerEvent g { t1 with rearm := false } else t1) = t2 ∧
+      t2.reg = true ∧ t2.early = false ∧ t2.connecting = false ∧ t2.connEv = false ∧ t2.rearm = false := by
+    refine ⟨_, rfl, ?_⟩
+    by_cases hre : t1.rearm = true
+    · rw [if_pos hre]
+      have hw := W_resetPollerEvent g { t1 with rearm := false }
+      have hv := V_resetPollerEvent g { t1 with rearm := false }
+      simp only [W, Prod.mk.injEq] at hw
+      simp only [V, Prod.mk.injEq] at hv
+      obtain ⟨_, _, w3, _, w5, _, w7, w8⟩ := hw
+      exact ⟨by rw [w3]; exact r1, by rw [w5]; exact y1, by rw [w7]; exact c1, by rw [w8]; exact v1, hv.1⟩
+    · rw [if_neg hre]
+      exact ⟨r1, y1, c1, v1, by simpa using hre⟩
+  obtain ⟨t2, e2, r2, y2, c2, v2, a2⟩ := h2
+  rw [e2] at ho ⊢
+  -- closeWithError after an error event: the connection is still open, so there was none
+  by_cases hee : t2.evErr = true
+  · rw [if_pos hee] at ho
+    by_cases hcl : t2.closed = true
+    · rw [if_pos hcl] at ho; simp [hcl] at ho
+    · rw [if_neg hcl] at ho; simp [flipWE, flip] at ho
+  · rw [if_neg hee] at ho ⊢
+    exact ⟨ho, r2, c2, v2, a2, by simpa using hee, y2⟩
 
 theorem round_spec (g : Cfg) (s : S) (N : Nat) (h : Inv4 g s) (q : Quiet s) (hN : 0 < N) :
     Inv4 g (run g s (round N)) ∧ Quiet (run g s (round N)) ∧
@@ -189,7 +242,7 @@ theorem round_spec (g : Cfg) (s : S) (N : Nat) (h : Inv4 g s) (q : Quiet s) (hN 
       rw [w1, uwl]
       have : s1.wl.isEmpty = true := by rw [hs1w, he]; rfl
       unfold flush
-      rw [if_neg (by simp [hs1c]), if_pos this, hs1w, he]
+      rw [if_neg (by simp [hs1c]), if_pos this, wl_cResetRead, hs1w, he]
   · -- not delivered: only possible without a backlog
     have hd1' : ((g.mode != .et || s.edgeDue) && s.kOut) = false := by simpa using hd1
     have hu : evTakeOp g s true false false [.wrote N] = s := by
